@@ -6,9 +6,9 @@ Import ListNotations.
 Require Import Model Spec.
 
 Section I.
-Variables (g : list (list nat * expr)) (t : list nat) (rx : nat -> nat -> option nat) (r : nat) (b : expr).
+Variables (g funs : list (list nat * expr)) (t : list nat) (rx : nat -> nat -> option nat) (r : nat) (b : expr).
 Hypothesis Hr : nth_error g r = Some ([], b).
-Notation PEG := (peg g (Some r) t rx).
+Notation PEG := (peg g funs (Some r) t rx).
 
 (* the flagged literal at fuel n+1 is the explicit `lit << _ignored` at fuel n+2 *)
 Lemma flagged_literal_is_discard n E s p :
@@ -32,7 +32,7 @@ Qed.
 
 (* an unflagged literal does not look at the ignored rule at all *)
 Lemma unflagged_literal_ignores n E s p ig :
-  peg g ig t rx (S n) E (Str s false) p = peg g None t rx (S n) E (Str s false) p.
+  peg g funs ig t rx (S n) E (Str s false) p = peg g funs None t rx (S n) E (Str s false) p.
 Proof. cbn [peg]. destruct s; [reflexivity|]. destruct (prefix_at _ t p); reflexivity. Qed.
 End I.
 Print Assumptions flagged_literal_is_discard.
